@@ -71,6 +71,7 @@ type mbCastState struct {
 	sampleImp *mbImpl
 	env       map[types.Object]constant.Value
 	rec       []string
+	conds     []string // decisions taken on conditions the cell does not determine
 	depth     int
 	norm      *mbNorm // normaliser of the function the path is in
 	// parameters of an executed helper that stand for the cast function's own
@@ -97,6 +98,7 @@ func (s *mbCastState) clone() *mbCastState {
 		o.env[k] = v
 	}
 	o.rec = append([]string(nil), s.rec...)
+	o.conds = append([]string(nil), s.conds...)
 	o.alias = make(map[types.Object]types.Object, len(s.alias))
 	for k, v := range s.alias {
 		o.alias[k] = v
@@ -415,6 +417,15 @@ func (cf *mbCastFn) cell(v, t constant.Value, allow bool, sample constant.Value,
 				if v := cf.eval(st, cond); v != nil && v.Kind() == constant.Bool {
 					return st, constant.BoolVal(v) == taken
 				}
+				// not decided by the cell: remembered for the error outcomes (under
+				// which data conditions the cast fails is part of the cell)
+				// Only kind tests are kept (the matrix is a table over kinds: a test
+				// of the kind of a part — the declared type of a field, an element —
+				// refines the cell); how a part is found (search loop, lookup table,
+				// found-flags) is not part of it.
+				if mbMentionsKind(cf.l.info, cond) {
+					st.conds = append(st.conds, cf.normOf(st).strB(cond, 0, !taken))
+				}
 				return st, true
 			},
 			OnCase: func(st *mbCastState, sw *ast.SwitchStmt, vals, others []ast.Expr) (*mbCastState, bool) {
@@ -536,6 +547,13 @@ func (cf *mbCastFn) cell(v, t constant.Value, allow bool, sample constant.Value,
 				}
 				if lab == "" {
 					return
+				}
+				if lab == "error" {
+					cs := mbUniq(st.conds)
+					sort.Strings(cs)
+					if len(cs) > 0 {
+						lab += " ⇐ " + strings.Join(cs, " ∧ ")
+					}
 				}
 				rec := mbUniq(st.rec)
 				sort.Strings(rec)
@@ -730,4 +748,20 @@ func (cf *mbCastFn) matrix(an *mbAn) map[string]*mbCastCell {
 		}
 	}
 	return out
+}
+
+// mbMentionsKind: the expression calls a parameterless method Kind().
+func mbMentionsKind(info *types.Info, e ast.Expr) bool {
+	found := false
+	ast.Inspect(e, func(n ast.Node) bool {
+		if call, ok := n.(*ast.CallExpr); ok && len(call.Args) == 0 {
+			if sel, ok := call.Fun.(*ast.SelectorExpr); ok && sel.Sel.Name == "Kind" {
+				if s, ok := info.Selections[sel]; ok && s.Kind() == types.MethodVal {
+					found = true
+				}
+			}
+		}
+		return !found
+	})
+	return found
 }
